@@ -42,6 +42,9 @@ def _patches(prop):
 def run_selftests(ctx, prop, limit=None):
     mod = importlib.import_module("mdnsverif.rules." + prop.lower())
     patches = _patches(prop)
+    cap = getattr(mod, "SELFTEST_MAX", None)
+    if cap:
+        patches = patches[:cap]
     if limit:
         patches = patches[:limit]
     detected = total = 0
